@@ -610,11 +610,24 @@ static cJSON *sort_list(cJSON *list, const cJSON_bool case_sensitive)
 
 static void sort_object(cJSON * const object, const cJSON_bool case_sensitive)
 {
+    cJSON *last = NULL;
+
     if (object == NULL)
     {
         return;
     }
     object->child = sort_list(object->child, case_sensitive);
+
+    /* the first child's prev designates the last child: restore it after relinking */
+    last = object->child;
+    while ((last != NULL) && (last->next != NULL))
+    {
+        last = last->next;
+    }
+    if (object->child != NULL)
+    {
+        object->child->prev = last;
+    }
 }
 
 static cJSON_bool compare_json(cJSON *a, cJSON *b, const cJSON_bool case_sensitive)
